@@ -63,9 +63,9 @@ func TestChild(t *testing.T) {
 		var schedule []string
 		var rerr error
 		leaked := false
+		note := ""
 		if s.Prim == "outercancel" {
-			rerr = runOuter(t, s, rec)
-			leaked = rerr != nil
+			leaked, note, rerr = runOuter(t, s, rec)
 		} else {
 			schedule, leaked, rerr = runGated(s, rec)
 		}
@@ -76,7 +76,7 @@ func TestChild(t *testing.T) {
 		if schedule == nil {
 			schedule = []string{}
 		}
-		rec.ev("end", tv.M{"sid": s.ID, "err": es, "schedule": schedule})
+		rec.ev("end", tv.M{"sid": s.ID, "err": es, "schedule": schedule, "note": note})
 		rec.close()
 		if leaked {
 			// goroutines of this scenario are left behind (blocked for ever, or released without finishing):
@@ -91,14 +91,22 @@ func TestChild(t *testing.T) {
 
 var errConfigured = errors.New("c13: configured cause")
 
-func runOuter(t *testing.T, sc scenario, rec *recorder) (err error) {
+// runOuter returns leaked = true when goroutines of the bubble could not end after the judged part of the
+// scenario (observed on the unchanged code: after shutdown the serving goroutine can block for ever on the slot of
+// a grant that its writer abandoned for the shutdown lock - then Run never returns; nothing in C13 speaks about it).
+func runOuter(t *testing.T, sc scenario, rec *recorder) (leaked bool, note string, err error) {
+	judged := false
 	defer func() {
 		if p := recover(); p != nil {
-			err = fmt.Errorf("synctest: %v", p)
+			if judged {
+				leaked, note, err = true, "goroutines-left-after-final-shutdown", nil
+				return
+			}
+			leaked, err = true, fmt.Errorf("synctest: %v", p)
 		}
 	}()
-	synctest.Test(t, func(t *testing.T) { outerBody(sc, rec) })
-	return nil
+	synctest.Test(t, func(t *testing.T) { outerBody(sc, rec, &judged) })
+	return false, "", nil
 }
 
 type oreader struct {
@@ -107,7 +115,7 @@ type oreader struct {
 	reported bool
 }
 
-func outerBody(sc scenario, rec *recorder) {
+func outerBody(sc scenario, rec *recorder, judged *bool) {
 	start := time.Now()
 	now := func() int { return int(time.Since(start) / time.Millisecond) }
 	ms := func(d int) time.Duration { return time.Duration(d) * time.Millisecond }
@@ -253,6 +261,7 @@ func outerBody(sc scenario, rec *recorder) {
 	})
 	// clean-up (not part of the judged trace): shut down so that every goroutine of the bubble can end
 	rec.ev("end_of_judged_part", nil)
+	*judged = true
 	rec.mu.Lock()
 	for _, r := range readers {
 		r.live = false
